@@ -67,22 +67,16 @@ def fileNameLineOk (name : Bytes) (lm : LineMatch) : Bool :=
 def checkLines (data name : Bytes) (ctx : Nat) (lms : List LineMatch) : Bool :=
   lms.all fun lm => if lm.fileName then fileNameLineOk name lm else lineMatchOk data ctx lm
 
-/-- a start location agrees with its byte offset: line = 1 + newlines before it, column = 1 + runes since the line start -/
-def startLocOk (data : Bytes) (l : Loc) : Bool :=
-  decide (l.byteOff ≤ data.length) &&
-  l.line == lineOf data l.byteOff &&
-  l.col == 1 + runeCount (Bytes.slice data (lineStartSpec data l.line) l.byteOff)
+/-- 1 + the runes between the start of line `line` and byte offset `off` -/
+def columnOf (data : Bytes) (line off : Nat) : Nat :=
+  1 + runeCount (Bytes.slice data (lineStartSpec data line) off)
 
-/-- an (exclusive) end location agrees with its byte offset: it is reported on the line of the range's last byte
-    (so an end just after a '\n' is the position past the newline on that line), column = 1 + runes since that line's start -/
-def endLocOk (data : Bytes) (startOff : Nat) (l : Loc) : Bool :=
-  decide (l.byteOff ≤ data.length) &&
-  l.line == lineOf data (max startOff (l.byteOff - 1)) &&
-  l.col == 1 + runeCount (Bytes.slice data (lineStartSpec data l.line) l.byteOff)
+/-- the line a range's exclusive end is reported on: the line of the range's last byte (so an end just after a '\n'
+    is the position past the newline on that line); an empty range ends where it starts -/
+def endLineOf (data : Bytes) (startOff stopOff : Nat) : Nat := lineOf data (max startOff (stopOff - 1))
 
-/-- one content chunk: whole lines starting at its reported start location, contains all of its ranges, every range
-    location agrees with its byte offset -/
-def chunkOk (data : Bytes) (cm : ChunkMatch) : Bool :=
+/-- one content chunk: whole lines starting at its reported start location, containing all of its ranges -/
+def chunkShapeOk (data : Bytes) (cm : ChunkMatch) : Bool :=
   decide (cm.contentStart.line ≥ 1) && cm.contentStart.col == 1 &&
   cm.contentStart.byteOff == lineStartSpec data cm.contentStart.line &&
   cm.content == Bytes.slice data cm.contentStart.byteOff (cm.contentStart.byteOff + cm.content.length) &&
@@ -91,8 +85,20 @@ def chunkOk (data : Bytes) (cm : ChunkMatch) : Bool :=
   decide (cm.ranges.length > 0) &&
   cm.ranges.all (fun r =>
     decide (cm.contentStart.byteOff ≤ r.start.byteOff) && decide (r.start.byteOff ≤ r.stop.byteOff) &&
-    decide (r.stop.byteOff ≤ cm.contentStart.byteOff + cm.content.length) &&
-    startLocOk data r.start && endLocOk data r.start.byteOff r.stop)
+    decide (r.stop.byteOff ≤ cm.contentStart.byteOff + cm.content.length))
+
+/-- every range reports line numbers that agree with its byte offsets -/
+def chunkLinesOk (data : Bytes) (cm : ChunkMatch) : Bool :=
+  cm.ranges.all (fun r =>
+    r.start.line == lineOf data r.start.byteOff && r.stop.line == endLineOf data r.start.byteOff r.stop.byteOff)
+
+/-- every range reports character columns that agree with its byte offsets: 1 + runes since the start of the reported line -/
+def chunkColsOk (data : Bytes) (cm : ChunkMatch) : Bool :=
+  cm.ranges.all (fun r =>
+    r.start.col == columnOf data r.start.line r.start.byteOff && r.stop.col == columnOf data r.stop.line r.stop.byteOff)
+
+def chunkOk (data : Bytes) (cm : ChunkMatch) : Bool :=
+  chunkShapeOk data cm && chunkLinesOk data cm && chunkColsOk data cm
 
 /-- chunk `a` lies entirely before chunk `b` -/
 def chunkBefore (a b : ChunkMatch) : Bool :=
